@@ -177,6 +177,7 @@ class State:
         f.facts = list(self.facts)
         f.eqs = list(self.eqs)
         f.trace = tuple(self.trace[-6:])
+        f.prefixes = dict(self.prefixes)
         return f
 
     def add(self, f: Lin):
@@ -371,6 +372,7 @@ class Interp:
         self.index_uses = []                     # (func, node, base AV, index Lin, facts snapshot) for C01
         self.unpack_uses = []
         self.visited = set()         # ids of the statements the abstract execution reached
+        self.piece_sep = {}          # repr(term) -> constant separator of a .split(sep) applied to it
         self.conv_uses = []          # (func, node, kind, argument AV, state) conversions that raise on malformed input
         self.none_uses = []          # (func, node, state) attribute/method use of a possibly-None match
         self.div_uses = []
@@ -1020,15 +1022,19 @@ class Interp:
         else:
             v = self.ev(test, st, fi)
             self.assume_truthy(v, truth, st)
-            if truth and isinstance(test, ast.Call) and isinstance(test.func, ast.Attribute) and test.func.attr == "startswith" and len(test.args) == 1:
+            if isinstance(test, ast.Call) and isinstance(test.func, ast.Attribute) and test.func.attr == "startswith" and len(test.args) == 1:
                 recv = self.ev(test.func.value, st, fi)
                 arg = self.ev(test.args[0], st, fi)
                 rb = self.as_bytes(recv)
                 if rb is not None and isinstance(arg, ConstV):
                     opts = arg.value if isinstance(arg.value, tuple) else (arg.value,)
                     if all(isinstance(o, bytes) for o in opts) and opts:
-                        st.prefixes[repr(rb.term)] = tuple(opts)
-                        st.add(rb.length - min(len(o) for o in opts))
+                        if truth:
+                            st.prefixes[repr(rb.term)] = tuple(opts)
+                            st.add(rb.length - min(len(o) for o in opts))
+                        else:
+                            # known NOT to start with any of these ("!" keys never collide with a term's repr)
+                            st.prefixes["!" + repr(rb.term)] = tuple(opts) + tuple(st.prefixes.get("!" + repr(rb.term), ()))
         if st.infeasible():
             raise Abort()
 
@@ -1106,6 +1112,10 @@ class Interp:
         if isinstance(op, (ast.Eq, ast.NotEq)):
             eq = isinstance(op, ast.Eq) == truth
             ba, bb = self.as_bytes(a), self.as_bytes(b)
+            if isinstance(b, ConstV) and isinstance(b.value, bytes):
+                self._note_prefix_cmp(a, (b.value,), eq, st)
+            elif isinstance(a, ConstV) and isinstance(a.value, bytes):
+                self._note_prefix_cmp(b, (a.value,), eq, st)
             if eq and ba is not None and bb is not None:
                 st.add_eq(ba.length - bb.length)
             if isinstance(a, ConstV) and isinstance(b, ConstV):
@@ -1128,12 +1138,35 @@ class Interp:
             return
         if isinstance(op, (ast.In, ast.NotIn)):
             isin = isinstance(op, ast.In) == truth
+            if isinstance(b, ConstV) and isinstance(b.value, (tuple, list, set, frozenset)) and b.value and all(isinstance(x, bytes) for x in b.value):
+                self._note_prefix_cmp(a, tuple(b.value), isin, st)
             if isin and isinstance(a, IntV) and isinstance(b, ConstV) and isinstance(b.value, (dict, tuple, list, frozenset, bytes)) and b.value:
                 keys = [k for k in b.value if isinstance(k, int)]
                 if keys and len(keys) == len(list(b.value)):
                     st.add(a.lin - min(keys))
                     st.add(max(keys) - a.lin)
             return
+
+    def _note_prefix_cmp(self, a, consts, positive, st):
+        """`T[:k] == c` (or `in (c1, c2)`) with len(c) == k is a startswith test on T: record it like one."""
+        if not isinstance(a, BytesV) or not isinstance(a.term, tuple):
+            return
+        term, case = a.term, None
+        if len(term) == 2 and term[0] in ("lower", "upper"):       # T[:k].lower() == c  is  T.lower()[:k] == c
+            case, term = term[0], term[1]
+        if not (isinstance(term, tuple) and len(term) == 4 and term[0] == "slice"):
+            return
+        _tag, inner, lo, hi = term
+        if case is not None:
+            inner = (case, inner)
+        if not (lo is None or (isinstance(lo, Lin) and lo.is_const() and lo.c == 0)):
+            return
+        if not (isinstance(hi, Lin) and hi.is_const() and hi.c > 0 and all(len(c) == hi.c for c in consts)):
+            return
+        if positive:
+            st.prefixes[repr(inner)] = tuple(consts)
+        else:
+            st.prefixes["!" + repr(inner)] = tuple(consts) + tuple(st.prefixes.get("!" + repr(inner), ()))
 
     def as_lin(self, v):
         if isinstance(v, IntV):
@@ -1495,7 +1528,13 @@ class Interp:
         if bb is None:
             if isinstance(base, Ref) and st.heap[base.oid]["kind"] == "list":
                 o = st.heap[base.oid]
-                return self.alloc(st, "list", items=list(o["items"]), summary=True, elem=o.get("elem"))
+                el = o.get("elem")
+                # pieces[:-1] of a split: the elements are the pieces that are followed by a separator
+                if (o.get("split_of") is not None and isinstance(el, BytesV) and el.term[:1] == ("piece",) and len(el.term) == 3 and el.term[1] == "split"
+                        and not o["items"] and step is None and (lo is None or (isinstance(lo, ConstV) and lo.value in (0, None)))
+                        and hi is not None and self.as_lin(hi) is not None and self.as_lin(hi).is_const() and self.as_lin(hi).c == -1):
+                    el = BytesV(el.term + ("nonlast",), el.length)
+                return self.alloc(st, "list", items=list(o["items"]), summary=True, elem=el)
             return UnknownV("slice of " + repr(base)[:30])
         L = bb.length
         llo = self.as_lin(lo) if lo is not None else None
@@ -2010,6 +2049,8 @@ class Interp:
             st.add(ln - (1 if sep_given else 0))
             if isinstance(maxsplit, ConstV) and isinstance(maxsplit.value, int) and maxsplit.value >= 0:
                 st.add(Lin(maxsplit.value + 1) - ln)
+            if name == "split" and sep_given and isinstance(args[0], ConstV) and isinstance(args[0].value, bytes):
+                self.piece_sep[repr(b.term)] = args[0].value
             return self.alloc(st, "list", items=[], elem=el, length=ln, summary=True, split_of=b.term, split_len=L,
                               split_sep=args[0] if sep_given else None)
         if name == "join":
